@@ -268,10 +268,12 @@ func (m *RTRIPPrefix) Serialize() ([]byte, error) {
 func NewRTRIPPrefix(prefix netip.Addr, prefixLen, maxLen uint8, as uint32, flags uint8) *RTRIPPrefix {
 	var pduType uint8
 	var pduLen uint32
-	if prefix.Is4() && prefixLen <= 32 {
+	// the decoder rejects a max length below the prefix length or beyond the
+	// address size, so such a PDU must not be constructible either
+	if prefix.Is4() && prefixLen <= 32 && prefixLen <= maxLen && maxLen <= 32 {
 		pduType = RTR_IPV4_PREFIX
 		pduLen = RTR_IPV4_PREFIX_LEN
-	} else if prefix.Is6() && prefixLen <= 128 {
+	} else if prefix.Is6() && prefixLen <= 128 && prefixLen <= maxLen && maxLen <= 128 {
 		pduType = RTR_IPV6_PREFIX
 		pduLen = RTR_IPV6_PREFIX_LEN
 	} else {
